@@ -122,13 +122,14 @@ func same(x, y slip.Object) slip.Object {
 }
 
 // compareByValue compares a rational (fixnum, bignum, or ratio) with a float
-// (single, double, or long) by their exact values. Normalizing the pair
-// rounds the rational to the float type which makes a rational that is
-// different from the float but rounds to it the same as the float. The ok
+// (single, double, or long) or a bignum with a ratio by their exact
+// values. Normalizing the pair rounds the rational to the float type, or
+// both the bignum and the ratio to a long-float, which makes a number that is
+// different from the other but rounds to it the same as the other. The ok
 // return is false for any other pair and for a float that is not finite.
 func compareByValue(x, y slip.Object) (cmp int, ok bool) {
 	x, y = fixOrBig(x), fixOrBig(y)
-	if !rationalAndFloat(x, y) && !rationalAndFloat(y, x) {
+	if !rationalAndFloat(x, y) && !rationalAndFloat(y, x) && !bignumAndRatio(x, y) && !bignumAndRatio(y, x) {
 		return 0, false
 	}
 	rx, ry := exactRat(x), exactRat(y)
@@ -147,6 +148,12 @@ func rationalAndFloat(x, y slip.Object) bool {
 		}
 	}
 	return false
+}
+
+func bignumAndRatio(x, y slip.Object) bool {
+	_, xBig := x.(*slip.Bignum)
+	_, yRat := y.(*slip.Ratio)
+	return xBig && yRat
 }
 
 // exactRat returns the exact value of a finite real as a big.Rat or nil if n
